@@ -213,7 +213,7 @@ def visit_cases():
         root = model.AbsNode("root", layout="none")
         r = namer.visit(root)
         ok1 = (r == {"a": ()} and root.__dict__.get(N.NAME_ATTR) == "a" and calls[0]["path"] == ()
-               and calls[0]["global"]["name"] is None and calls[0]["global"]["name_to_path"] is r)
+               and calls[0].get("global", {}).get("name_to_path") is r)
 
         def stub2(n_, context):
             context["global"]["name_to_path"]["q"] = (0,)
@@ -368,6 +368,12 @@ def plan(tier, seed):
     pl.cases = next_name_cases() + visit_cases() + path_cases()
     pl.canaries = [canary()]
     pl.finite = [("C15-F/matching_from_names", matching_table), ("C15-U/uniform-loops", lambda: uniform.check(LOOPS))]
+    ntok = 4 if tier == "quick" else 6
+
+    def net():
+        from vfkit import bounded as _b
+        return _b.run_native("c15_naming", {"max_tokens": ntok, "known": _b.known_for("C15", "C15-B")})
+    pl.bounded = [("C15-B/names, mapping and paths on whole trees incl. 50+ operands and pre-named trees (safety net)", net)]
     pl.functions = ["luqum.naming.TreeAutoNamer.next_name", "luqum.naming.TreeAutoNamer.visit_base_operation",
                     "luqum.naming.TreeAutoNamer.visit", "luqum.naming.auto_name", "luqum.naming.set_name", "luqum.naming.get_name",
                     "luqum.naming.element_from_path", "luqum.naming.element_from_name", "luqum.naming.matching_from_names",
